@@ -55,7 +55,11 @@ fn build_barrier(raw: &Raw, droppable: bool) -> Scenario {
         for r in ops {
             let op = match r.k % 16 {
                 0..=11 => {
-                    let o = ActOpts { reducers: &reds, middlewares: &mws, effects: false, followups: false, veto: true, keeps: true, panics: false };
+                    // half of the scenarios: reducers return effects, incl. Effect::Action / thunk
+                    // follow-ups that a worker dispatches whenever it gets to it - before, during
+                    // or after the stop (then they are rejected; that must not hurt anybody)
+                    let with_effects = knob(raw, 9) % 2 == 0;
+                    let o = ActOpts { reducers: &reds, middlewares: &mws, effects: with_effects, followups: with_effects, veto: true, keeps: true, panics: false };
                     let a = scripted_action(&mut b, s, r, &o);
                     Op::Dispatch { act: a, via: via_of(r) }
                 }
